@@ -24,15 +24,15 @@ is a string this is `hxlist` / `hxedges`.
 EXCLUSIONS (explicit, counted, never silent):
   * `can_send(text)`: a text with a lone surrogate has no UTF-8 form, so it cannot travel over the protocol (and is not a
     Lean `String`); `nxgml_lines` raises ValueError on it.
-  * model reply `unsupported` (the model documents exactly when: Unicode `\\b` after a key, a float that is needed as a
-    value, a true `multigraph`, a character reference to a surrogate): such a pair is not a disagreement IF
-    `may_be_unsupported(text)` holds (the text has a non-ASCII character, a `.`, `INF`, `NAN`, `multigraph`, or a surrogate
-    character reference); an `unsupported` on any other text IS a disagreement.  When networkx answers with a node that is
+  * model reply `unsupported` (the model documents exactly when: a float that is needed as a value, a true `multigraph`,
+    a character reference to a surrogate): such a pair is not a disagreement IF `may_be_unsupported(text)` holds (the
+    text has a `.`, `INF`, `NAN`, `multigraph`, or a surrogate character reference); an `unsupported` on any other text IS a disagreement.  When networkx answers with a node that is
     not a `str` / `int` / `()` (a float) the expected reply is `unsupported` as well.
   * nesting deeper than Python's recursion limit (`RecursionError`) is never generated.
 
     self_test()   label pools x random (di)graphs -> gen, parse of the generated text (round trip), esc / unesc; hand-made
-                  texts; mutated texts (token-level fuzzing of generated texts); returns the list of disagreements.
+                  texts; mutated texts (token-level fuzzing of generated texts); grammar-based random texts (mostly
+                  broken: `_rand_gml`, mostly valid in free layout: `_valid_gml`); returns the list of disagreements.
 """
 from __future__ import annotations
 
@@ -67,8 +67,7 @@ def _has_surrogate_ref(text):
 
 def may_be_unsupported(text):
     """the documented circumstances in which the model may answer `unsupported`"""
-    return (any(ord(c) > 127 for c in text) or '.' in text or 'INF' in text or 'NAN' in text or 'multigraph' in text
-            or _has_surrogate_ref(text))
+    return '.' in text or 'INF' in text or 'NAN' in text or 'multigraph' in text or _has_surrogate_ref(text)
 
 
 def _graph(names, edges, directed=True):
@@ -248,6 +247,10 @@ HAND = [
     'graph [ node [ ] ]',
     'graph [ edge 5 ]',
     'graph [ edge "[]" ]',
+    'graph [ edge "[]" edge [ source 0 target 0 ] ]',
+    'graph [ node [ id 0 label "a" ] node "[]" ]',
+    'graph [ node "[]" node "[]" ]',
+    'graph [ node "()" node [ id 0 label "a" ] ]',
     'graph [ node [ id 0 label "()" ] ]',
     'graph [ node [ id 0 label "[]" ] ]',
     'graph [ node [ id "()" label "a" ] ]',
@@ -258,6 +261,11 @@ HAND = [
     'graph [ node [ id 0 id 1 label "a" ] ]',
     'graph [ node [ id 0 label "a" label "b" ] ]',
     'graph [ node [ id 0 label 5 ] ]',
+    'graph [ directed 1 node [ id 0 label 1 ] node [ id 1 label 0 ] edge [ source 0 target 1 ] ]',
+    'graph [ node [ id 0 label 1 ] node [ id 1 label 2 ] node [ id 2 label 0 ] edge [ source 2 target 1 ] edge [ source 0 target 2 ] ]',
+    'graph [ node [ id 5 label "a" ] node [ id 3 label "b" ] node [ id 4 label "c" ] edge [ source 4 target 5 ] edge [ source 3 target 4 ] edge [ source 5 target 3 ] edge [ source 4 target 4 ] ]',
+    'graph [ directed 1 node [ id 5 label "a" ] node [ id 3 label "b" ] node [ id 4 label "c" ] edge [ source 4 target 5 ] edge [ source 3 target 4 ] edge [ source 5 target 3 ] edge [ source 4 target 4 ] edge [ source 5 target 4 ] ]',
+    'graph [ node [ id "a" label "b" ] node [ id "b" label "a" ] edge [ source "a" target "b" ] edge [ source "b" target "b" ] ]',
     'graph [ node [ id 0 label 5 ] node [ id 1 label "5" ] ]',
     'graph [ node [ id 0 label 5 ] node [ id 1 label 5 ] ]',
     'graph [ node [ id 0 label +5 ] node [ id 1 label -5 ] node [ id 2 label -0 ] ]',
@@ -305,6 +313,32 @@ HAND = [
     'graph [ node [ id 0 label "a" ] edge [ source "[]" target 0 ] ]',
     'graph [ node [ id 0 label "a" ] edge [ source 0 target "()" ] ]',
     'graph [ node [ id 0 label "a\nb" ] ]',
+    'graph [ node [ id 0 label "a   \n   b" ] ]',
+    'graph [ node [ id 0 label "a   \n   b"\n ] ]',
+    'graph [ node [ id 0 label "a \t \n \t b  \n  c"\n] ]  ',
+    'graph [ node [ id 0 label "a\n\n\nb"\n] ]',
+    'graph [ node [ id 0 label "a\nb"\n] ]',
+    'graph [ node [ id 0 label "a\n  "\n] ]',
+    'graph [ node [ id 0 label "a\n  " \n] ]',
+    'graph [ node [ id 0 label "a\xa0\n\xa0b"\n] ]',
+    'graph [ node [ id 0 label "a\n b w "c"\n] ]',
+    'graph [\n node [ id 0 label "a\n b"\n ]\n node [ id 1 label "c\n\td"\n ]\n]',
+    'graph [ node [ id 0 label "a \t \n \t b  \n  c" ] ]  ',
+    '  graph [ node [ id 0 label "  a\xa0\n\xa0b  " ] ]',
+    'graph [ node [ id 0 label x ' + '1' * 4301 + ' ] ]',
+    'graph [ node [ id 0 label x +INFe5 ] ]',
+    'graph [ node [ id ] +INFe5 label "a" ] ]',
+    'graph [ node [ id 0 label x $ ] ]',
+    'graph [ node [ id 0 label x\nw "a\n\nb" ] ]',
+    'graph [ node [ id 0 label x w "a\n\nb" ] ]',
+    'graph [ node [ id 0 label "a" w x\nw "a\n\nb" ] ]',
+    'graph [ node "_networkx_list_start" node [ id 0 label "a" ] ]',
+    'graph [ node [ id 0 label "a" ] edge "_networkx_list_start" edge [ source 0 target 0 ] ]',
+    'graph [ node "_networkx_list_start" node [ id 0 label "a" ] node [ id 1 label "b" ] ]',
+    'graph [ node [ id 0 label "a" ] node "_networkx_list_start" ]',
+    'graph [ node "_networkx_list_start" ]',
+    'graph [ directed "_networkx_list_start" directed 0 ]',
+    'graph [ node [ id "_networkx_list_start" id 0 label "a" ] ]',
     'graph [ node [ id 0 label "a\n\nb" ] ]',
     'graph [ node [ id 0 label "a\n b \nc" ] ]',
     'graph [ node [ id 0 label "a\n" ] ]',
@@ -376,7 +410,8 @@ _PIECES = ['"', '[', ']', '#', ' ', ' ', '\n', '\r\n', '\t', '0', '1', '7', '.',
            '&#65;', '&#x41;', '&', ';', 'id', 'label', 'source', 'target', 'node', 'edge', 'graph', ' directed 0 ',
            ' directed 1 ', ' multigraph 1 ', '"()"', '"[]"', '"_networkx_list_start"', ' ', ' ', 'é', '_', 'x',
            ' w 3 ', ' w "s" ', ' w [ q 1 ] ', ' id 0 ', ' label "a" ', ' node [ id 9 label "n9" ] ',
-           ' edge [ source 0 target 0 ] ', '\x0b', '\x1f', '&#55296;', ' self 1 ']
+           ' edge [ source 0 target 0 ] ', '\x0b', '\x1f', '&#55296;', ' self 1 ', '\u2028', '\u3000', '\x85', '\x1c',
+           '\xa0', '\r', '#x', '# "', 'label "a\nb"\n', ' \n b"\n', '9' * 20, '-', '+5', '00', ' 1.5 ', '()', '[]']
 
 
 def _mutate(rng, text):
@@ -453,7 +488,57 @@ def _rand_gml(rng):
     return 'graph [' + sep + sep.join(parts) + sep + ']'
 
 
-def self_test(seed=1, verbose=True, rounds=400, fuzz=6000, grammar=6000):
+def _valid_gml(rng):
+    """mostly VALID texts in free layout: ids that are ints / strings / keys, labels of several types, attributes, comments,
+    odd white space and line ends; a few defects (duplicate, unknown end point) at the end"""
+    n = rng.randint(0, 6)
+    style = rng.choice(['int', 'int', 'str', 'key', 'mixed'])
+
+    def mkid(i):
+        st = style if style != 'mixed' else rng.choice(['int', 'str', 'key'])
+        return {'int': str(i * rng.choice([1, 1, 3]) if style != 'mixed' else i), 'str': '"n%d"' % i, 'key': 'k%d' % i}[st]
+    ids = [mkid(i) for i in range(n)]
+    if len(set(ids)) < n:
+        ids = [str(i) for i in range(n)]
+    labs = rng.sample(['"a"', '"b"', '"c d"', '"&amp;"', '"&#65;&#x42;"', '"e#f"', '"[x]"', '""', '7', '-3', 'z9', '"()"',
+                       '"0"', '"g\\h"', '"i;"', 'INF', 'NAN', 'None'], n)
+    ws = lambda: rng.choice([' ', ' ', '  ', '\n', '\n    ', '\t', '\r\n', ' # note\n', '\u2028', '\x0c', '\xa0', '\x1f'])
+    parts = []
+    if rng.random() < 0.6:
+        parts.append('directed' + ws() + rng.choice(['1', '1', '0', '"y"', '7', '-1', '""', '00']))
+    if rng.random() < 0.2:
+        parts.append('name' + ws() + rng.choice(['"g"', '5', '[ a 1 ]', '1.5']))
+    for i in range(n):
+        fields = ['id' + ws() + ids[i], 'label' + ws() + labs[i]]
+        if rng.random() < 0.3:
+            fields.append(rng.choice(['w 1', 'w "x"', 'g [ x 1 y [ z 2 ] ]', 'w 1 w 2', 'w 2.5', 'w -INF', 'w NAN']))
+        rng.shuffle(fields)
+        parts.append('node' + ws() + '[' + ws() + ws().join(fields) + ws() + ']')
+    es = []
+    if n:
+        for _ in range(rng.randint(0, 2 * n)):
+            a, b = rng.randrange(n), rng.randrange(n)
+            if (a, b) not in es and (rng.random() < 0.1 or (b, a) not in es):
+                es.append((a, b))
+    for a, b in es:
+        fields = ['source' + ws() + ids[a], 'target' + ws() + ids[b]]
+        if rng.random() < 0.2:
+            fields.append(rng.choice(['weight 3', 'label "e"', 'k [ ]']))
+        rng.shuffle(fields)
+        parts.append('edge' + ws() + '[' + ws() + ws().join(fields) + ws() + ']')
+    if rng.random() < 0.3:
+        rng.shuffle(parts)
+    r = rng.random()
+    if r < 0.05 and n:
+        parts.append('node [ id ' + ids[0] + ' label "dup" ]')
+    elif r < 0.1 and n:
+        parts.append('node [ id 999 label ' + labs[0] + ' ]')
+    elif r < 0.15:
+        parts.append('edge [ source 0 target 12345 ]')
+    return rng.choice(['', '# head\n', ' ']) + 'graph' + ws() + '[' + ws() + ws().join(parts) + ws() + ']' + rng.choice(['', '\n', ' # end'])
+
+
+def self_test(seed=1, verbose=True, rounds=1200, fuzz=25000, grammar=12000, valid=12000):
     """returns the list of disagreements `(line, networkx reply, model reply)`; empty = agreement"""
     from harness.core import ModelClient
     t0 = time.time()
@@ -525,6 +610,36 @@ def self_test(seed=1, verbose=True, rounds=400, fuzz=6000, grammar=6000):
             if rng.random() < 0.15:
                 t = _mutate(rng, t)
             add(nxgml_lines('parse', t), t)
+        n_ok = 0
+        for _ in range(valid):
+            t = _valid_gml(rng)
+            pairs = nxgml_lines('parse', t)
+            n_ok += not pairs[0][1].startswith(('err', 'unsupported'))
+            add(pairs, t)
+            if rng.random() < 0.3:
+                t2 = _mutate(rng, t)
+                if can_send(t2):
+                    add(nxgml_lines('parse', t2), t2)
+        stats['valid_ok'] = n_ok
+        # `\\b` after a key: `INFe5<ch>` is a REALS token on which float() raises ValueError iff <ch> is a word character
+        # (otherwise it is the key `INFe5`, and the text ends in NetworkXError): every boundary of str.isalnum() and a sample
+        pts = set(range(0x7b, 0x180)) | {rng.randrange(128, 0x110000) for _ in range(3000)}
+        prev = False
+        for c in range(128, 0x110000):
+            w = chr(c).isalnum()
+            if w != prev:
+                pts.update((c - 1, c, c + 1))
+                prev = w
+        n_word = 0
+        for c in sorted(pts):
+            if 0xD800 <= c <= 0xDFFF or c >= 0x110000:
+                continue
+            t = 'graph [ x INFe5' + chr(c) + ' ]'
+            pairs = nxgml_lines('parse', t)
+            n_word += pairs[0][1] == 'err ValueError'
+            add(pairs, None)
+        stats['word_boundary_points'] = len(pts)
+        stats['word_chars'] = n_word
         for _ in range(1500):
             t = ''.join(rng.choice(['&', '#', 'x', ';', 'a', '1', 'F', 'g', 'amp', 'lt', '38', ' ', '"', 'é', 'X', '0'])
                         for _ in range(rng.randint(0, 9)))
